@@ -6,6 +6,18 @@ HERE = os.path.dirname(os.path.dirname(os.path.abspath(__file__)))
 
 # property id -> (simulator, design section, technique, level text, level note)
 BUILT = {
+    "C07": (
+        "C", "5/C07",
+        "deterministic simulation: real ExecutionManager::run on a paused, seeded current-thread tokio runtime (discrete-event virtual time) behind a scripted ExecutionClient (delays around the timeout, silence, errors), history check with exact virtual timestamps",
+        "Seeded search over request batches (1-64 outstanding, bursts), per-request client behaviour (Ok / fully filled / rejected / connectivity error after any delay below, at or above the timeout, or never), timeouts from 1 ms to 60 s, select! tie-breaks and a response receiver that goes away. The recorded response history must contain exactly one event per accepted request, at the exact virtual instant, of the right kind and attribution, the client's own answer iff it beat the timeout.",
+        "Trusted: the scripted client, the virtual-time driver/collector and tokio's paused-clock runtime (timer wheel, FIFO run queue, seeded select!). A response exactly at the timeout instant is accepted either way. Multi-threaded runtime scheduling is not explored.",
+    ),
+    "C04": (
+        "C", "5/C04",
+        "deterministic simulation: random multi-exchange topologies with one real ExecutionManager (init+run) per exchange running concurrently on a paused tokio runtime, real engine issuing requests for every instrument, clients emitting account events by name; routing invariant + index<->name round trip per topology",
+        "Seeded search over instrument collections (1-4 exchanges, spot/perpetual, shared asset and instrument names, any definition order). For each topology every index of every exchange must translate index->name->index to itself and foreign indices must not translate; then, with all managers running, every request must reach exactly its exchange's client addressed to that instrument's exchange name, and every balance / order / trade event emitted by name must change exactly the named asset / instrument in the engine.",
+        "Trusted: the scripted clients and the virtual-time driver. The round-trip part is a per-topology check that rides on the simulation's random topologies; the routing part needs the running managers. Response timing faults are C07's subject and not injected here.",
+    ),
     "C10": (
         "F", "5/C10",
         "deterministic simulation: one seeded engine history run three ways (step-by-step reference, sync_run_with_audit with the simulator as Iterator feed, async_run_with_audit on a paused tokio runtime with the simulator as Stream feed) + real StateReplicaManager behind a fault-injecting audit network (loss/dup/swap/replay, dropped audit receiver)",
